@@ -69,8 +69,10 @@ def rand_op(rng, cfg, nreq, spawned, simple, allow_size):
         return {"o": "hstart", "kind": "gac", "re": rng.random() < 0.4}
     if x < 0.97 and allow_size:
         return {"o": "set_size", "n": rng.choice([-1, 0, 1, 2, 3, 4])}
-    if x < 0.98:
+    if x < 0.975:
         return {"o": "get_ids", "names": ["nosuch"]}
+    if x < 0.985:
+        return {"o": "hcancel", "h": rng.randrange(0, 3)}      # cancel the task awaiting flush / gather_and_close / until_closed
     return {"o": "cancel", "ids": []} if rng.random() < 0.3 else {"o": "unlock"}
 
 
